@@ -269,3 +269,19 @@ func DialTimeout(n, a string, d time.Duration) (net.Conn, error) {
 	l.q = append(l.q, sc)
 	return c, nil
 }
+
+// Avail returns and consumes every byte currently readable on c without blocking, and whether the peer
+// has closed (no more bytes will come). Harness-side helper; not a scheduling point.
+func Avail(c net.Conn) (data []byte, closed bool) {
+	x, ok := c.(*conn)
+	if !ok {
+		return nil, true
+	}
+	if x.rd.Hold {
+		return nil, false
+	}
+	data = append([]byte{}, x.rd.buf...)
+	x.rd.Read += len(x.rd.buf)
+	x.rd.buf = x.rd.buf[:0]
+	return data, x.rd.closed || x.closed
+}
